@@ -1,9 +1,8 @@
-// Shared set-up and oracle for the tag / multi-tag / slice retrieval harnesses (C05, C06, C17, C18).
+// Shared set-up, contract kernels and oracle for the retrieval harnesses (C05, C06, C17, C18).
 #pragma once
 #include "vh.hpp"
 #include <cmath>
-
-namespace vh {
+#include <nix/util/dataAccess.hpp>
 
 #ifndef VH_MAXRANK
 #define VH_MAXRANK 2
@@ -11,90 +10,151 @@ namespace vh {
 #ifndef VH_MAXEXT
 #define VH_MAXEXT 3
 #endif
+#ifndef VH_NSAMPLING
+#define VH_NSAMPLING 2
+#endif
+// sampled / unlabelled-set axes are unbounded; oracle and contract kernels look at their first VH_WINDOW coordinates
+#define VH_WINDOW (VH_MAXEXT + 2)
 
-// one axis of the referenced array: coordinates x_0 < x_1 < ... (concrete or symbolic doubles)
-struct Axis { int kind; std::vector<double> x; bool eps_sensitive; };   // kind: 0 set, 1 sampled, 2 range, 3 set without labels
+// ---------------------------------------------------------------------------------------------------------------------
+// Contract kernels.  The three index kernels that do floating-point arithmetic (getSampledIndex, getSetIndex,
+// getDataFrameIndex) are decided on their own in C07.  In the composite harnesses a bit-blasted ceil/floor/div/fptoui
+// per branch query makes exploration of rank >= 2 intractable (measured: 0.4 s per query, > 600 s for rank 1), so the
+// *quick* tiers replace them by the relation C07 establishes: "the smallest / largest index whose coordinate
+// offset + i*interval is >=, >, <=, < the position", decided by comparisons only.  Everything above the kernels -
+// Dimension::indexOf pair logic, positionToIndex, scalePositions, getOffsetAndCount, dataSlice, DataView, the
+// back-end - is the real code.  Jobs that list these names under "no_replace" run the real kernels instead.
+// On an unbounded axis a position beyond coordinate VH_WINDOW-1 is outside the bound: the path is discarded.
+// ---------------------------------------------------------------------------------------------------------------------
+#define VH_VRT(m) __asm__("__vrt__" m) __attribute__((used))
+namespace vrt_idx {
+inline boost::optional<nix::ndsize_t> scan(double p, double off, double iv, nix::ndsize_t finite_n, nix::PositionMatch m) {
+    using nix::PositionMatch;
+    boost::optional<nix::ndsize_t> r;
+    size_t K = finite_n ? (size_t)finite_n : (size_t)VH_WINDOW;
+    if (m == PositionMatch::GreaterOrEqual || m == PositionMatch::Greater) {
+        for (size_t i = 0; i < K; i++) {
+            double x = (double)i * iv + off;
+            if (m == PositionMatch::GreaterOrEqual ? x >= p : x > p) { r = (nix::ndsize_t)i; return r; }
+        }
+        if (!finite_n) nixsym_assume(false);
+        return r;
+    }
+    if (m == PositionMatch::LessOrEqual || m == PositionMatch::Less) {
+        for (size_t i = K; i-- > 0;) {
+            double x = (double)i * iv + off;
+            if (m == PositionMatch::LessOrEqual ? x <= p : x < p) { if (!finite_n && i == K - 1) nixsym_assume(false); r = (nix::ndsize_t)i; return r; }
+        }
+        return r;
+    }
+    for (size_t i = 0; i < K; i++) { double x = (double)i * iv + off; if (x == p) { r = (nix::ndsize_t)i; return r; } }
+    if (!finite_n && !((double)(K - 1) * iv + off > p)) nixsym_assume(false);
+    return r;
+}
+boost::optional<nix::ndsize_t> sampled(double position, double offset, double interval, nix::PositionMatch m) VH_VRT("_Z15getSampledIndexdddN3nix13PositionMatchE");
+boost::optional<nix::ndsize_t> sampled(double position, double offset, double interval, nix::PositionMatch m) { return scan(position, offset, interval, 0, m); }
+boost::optional<nix::ndsize_t> setidx(double position, std::vector<std::string> labels, nix::PositionMatch m) VH_VRT("_Z11getSetIndexdSt6vectorINSt7__cxx1112basic_stringIcSt11char_traitsIcESaIcEEESaIS5_EEN3nix13PositionMatchE");
+boost::optional<nix::ndsize_t> setidx(double position, std::vector<std::string> labels, nix::PositionMatch m) { return scan(position, 0.0, 1.0, labels.size(), m); }
+boost::optional<nix::ndsize_t> dfidx(double position, nix::ndsize_t rows, nix::PositionMatch m) VH_VRT("_Z17getDataFrameIndexdyN3nix13PositionMatchE");
+boost::optional<nix::ndsize_t> dfidx(double position, nix::ndsize_t rows, nix::PositionMatch m) { return scan(position, 0.0, 1.0, rows, m); }
+}
 
+namespace vh {
+
+// one axis of the referenced array.  x: the coordinates the oracle looks at - all of them for a finite axis (range ticks,
+// labelled set, data-frame rows), the first VH_WINDOW for an unbounded one (sampled, set without labels).
+struct Axis { int kind; bool unbounded; std::vector<double> x; double iv, off; };   // kind: 0 set+labels, 1 sampled, 2 range, 3 set, 4 data-frame
 struct Arr { DataArray a; std::vector<Axis> ax; NDSize ext; };
 
-// element (i,j) holds i*10+j (rank 1: i), so a returned block identifies its origin by content
-inline Arr make_array(Block &b, const char *name, const char *prefix) {
+static const double VH_SAMPLING[4][2] = {{1.0, 0.0}, {0.5, -1.0}, {0.1, 0.0}, {3.0, 100.25}};
+
+// element (i,j,k) holds i*100+j*10+k, so a returned block identifies its origin by content
+inline uint64_t elem_code(const size_t *idx, size_t rank) { uint64_t c = 0; for (size_t d = 0; d < 3; d++) c = c * 10 + (d < rank ? idx[d] : 0); return c; }
+
+inline Arr make_array(Block &b, const char *name, const char *prefix, int maxrank = VH_MAXRANK) {
     Arr r;
-    uint32_t rank = 1 + nixsym_choice((std::string(prefix) + "rank").c_str(), VH_MAXRANK);
+    std::string pf(prefix);
+    uint32_t rank = 1 + nixsym_choice((pf + "rank").c_str(), (uint32_t)maxrank);
     r.ext = NDSize(rank, 1);
-    for (uint32_t d = 0; d < rank; d++) r.ext[d] = 1 + nixsym_choice((std::string(prefix) + "n").c_str(), VH_MAXEXT);
+    for (uint32_t d = 0; d < rank; d++) r.ext[d] = 1 + nixsym_choice((pf + "n").c_str(), VH_MAXEXT);
     r.a = b.createDataArray(name, "t", DataType::Double, r.ext);
     std::vector<double> vals((size_t)r.ext.nelms());
-    for (size_t i = 0; i < (size_t)r.ext[0]; i++) for (size_t j = 0; j < (rank == 2 ? (size_t)r.ext[1] : 1); j++) vals[rank == 2 ? i * (size_t)r.ext[1] + j : i] = (double)(i * 10 + j);
+    size_t idx[3] = {0, 0, 0}, k = 0;
+    for (idx[0] = 0; idx[0] < (size_t)r.ext[0]; idx[0]++)
+        for (idx[1] = 0; idx[1] < (rank > 1 ? (size_t)r.ext[1] : 1); idx[1]++)
+            for (idx[2] = 0; idx[2] < (rank > 2 ? (size_t)r.ext[2] : 1); idx[2]++) vals[k++] = (double)elem_code(idx, rank);
     r.a.setData(DataType::Double, vals.data(), r.ext, NDSize(rank, 0));
     for (uint32_t d = 0; d < rank; d++) {
-        Axis ax; ax.kind = (int)nixsym_choice((std::string(prefix) + "kind").c_str(), 4);
+        Axis ax; ax.kind = (int)nixsym_choice((pf + "kind").c_str(), 5); ax.iv = 1.0; ax.off = 0.0; ax.unbounded = false;
         size_t n = (size_t)r.ext[d];
-        if (ax.kind == 0) { std::vector<std::string> l; for (size_t i = 0; i < n; i++) l.push_back("l"); r.a.appendSetDimension(l); for (size_t i = 0; i < n; i++) ax.x.push_back((double)i); ax.eps_sensitive = true; }
-        else if (ax.kind == 3) { r.a.appendSetDimension(); for (size_t i = 0; i < n; i++) ax.x.push_back((double)i); ax.eps_sensitive = true; }
+        if (ax.kind == 0) { std::vector<std::string> l(n, "l"); r.a.appendSetDimension(l); for (size_t i = 0; i < n; i++) ax.x.push_back((double)i); }
+        else if (ax.kind == 3) { r.a.appendSetDimension(); ax.unbounded = true; for (size_t i = 0; i < VH_WINDOW; i++) ax.x.push_back((double)i); }
         else if (ax.kind == 1) {
-            // sampled axis with binary-exact parameters (general intervals are the kernel harness' subject, C07)
-            uint32_t v = nixsym_choice((std::string(prefix) + "sampling").c_str(), 3);
-            double iv = v == 0 ? 1.0 : v == 1 ? 0.5 : 1.0, off = v == 2 ? -1.0 : 0.0;
-            r.a.appendSampledDimension(iv, "", "", off);
-            for (size_t i = 0; i < n; i++) ax.x.push_back((double)i * iv + off);
-            ax.eps_sensitive = true;
-        } else {
+            uint32_t v = nixsym_choice((pf + "sampling").c_str(), VH_NSAMPLING);
+            ax.iv = VH_SAMPLING[v][0]; ax.off = VH_SAMPLING[v][1]; ax.unbounded = true;
+            SampledDimension sd = r.a.appendSampledDimension(ax.iv, "", "", ax.off);
+            for (size_t i = 0; i < VH_WINDOW; i++) ax.x.push_back(sd.positionAt(i));
+        } else if (ax.kind == 2) {
             std::vector<double> t;
-            for (size_t i = 0; i < n; i++) { double v = nixsym_f64((std::string(prefix) + "tick").c_str()); nixsym_assume(v == v && v > -1e300 && v < 1e300); if (i) nixsym_assume(t[i - 1] < v); t.push_back(v); }
+            for (size_t i = 0; i < n; i++) { double v = nixsym_f64((pf + "tick").c_str()); nixsym_assume(v == v && v > -1e300 && v < 1e300); if (i) nixsym_assume(t[i - 1] < v); t.push_back(v); }
             r.a.appendRangeDimension(t);
-            ax.x = t; ax.eps_sensitive = false;
+            ax.x = t;
+        } else {
+            std::vector<Column> cols = {{"c0", "", DataType::Int64}};
+            DataFrame df = b.createDataFrame(std::string(name) + "_df" + (char)('0' + d), "t", cols);
+            df.rows(n);
+            r.a.appendDataFrameDimension(df);
+            for (size_t i = 0; i < n; i++) ax.x.push_back((double)i);
         }
         r.ax.push_back(ax);
     }
     return r;
 }
 
-// known finding C07-eps-zone seen through the composite functions: p within DBL_EPSILON of (but not on) an integer-spaced coordinate
-inline bool near_not_on(double p, double step, double off) {
-    double q = (p - off) / step;
-    double xc = std::ceil(q) * step + off, xf = std::floor(q) * step + off;
-    const double eps = 2.220446049250313e-16;
-    return (xc != p && std::fabs(xc - p) <= eps) || (xf != p && std::fabs(xf - p) <= eps);
-}
-inline bool axis_eps_zone(const Axis &ax, double p) {
-    if (!ax.eps_sensitive) return false;
-    double step = ax.x.size() > 1 ? ax.x[1] - ax.x[0] : 1.0;
-    if (ax.kind == 1 && ax.x.size() == 1) return near_not_on(p, 1.0, ax.x[0]) || near_not_on(p, 0.5, ax.x[0]);
-    return near_not_on(p, step, ax.x[0]);
-}
-
-// The documented selection rule along one axis. Returns false if the selection is empty (=> out of bounds).
-//   region [s, e] (inclusive) or [s, e) (exclusive); point == true: the single first element at or after s.
-inline bool select_axis(const Axis &ax, double s, double e, bool inclusive, bool point, size_t &first, size_t &count) {
-    size_t n = ax.x.size();
-    if (point) {
-        for (size_t i = 0; i < n; i++) if (ax.x[i] >= s) { first = i; count = 1; return true; }
-        return false;
+// The documented selection rule along one axis, computed without branching so that it stays one solver term:
+//   region [s, e] (inclusive) or [s, e) (exclusive); point: the single first element at or after s.
+//   ok == the selection is non-empty and lies inside the stored data (indices < N).
+struct Sel { uint64_t first, count; bool ok; };
+inline Sel select_axis(const Axis &ax, uint64_t N, double s, double e, bool inclusive, bool point) {
+    uint64_t first = 0, count = 0; bool found = false;
+    for (size_t i = 0; i < ax.x.size(); i++) {
+        bool ge = ax.x[i] >= s;
+        bool upper = inclusive ? ax.x[i] <= e : ax.x[i] < e;
+        bool in = ge & ((point & !found) | (!point & upper));
+        first = (in & !found) ? (uint64_t)i : first;
+        found = found | in;
+        count += in ? 1u : 0u;
     }
-    bool found = false; count = 0;
-    for (size_t i = 0; i < n; i++) {
-        bool in = ax.x[i] >= s && (inclusive ? ax.x[i] <= e : ax.x[i] < e);
-        if (in) { if (!found) { first = i; found = true; } count++; }
-    }
-    return found;
+    Sel r; r.first = first; r.count = count; r.ok = found & (first + count <= N);
+    return r;
 }
+// whole axis
+inline Sel select_all(uint64_t N) { Sel r; r.first = 0; r.count = N; r.ok = true; return r; }
 
-// compare a DataView with the expected block of the array filled by make_array
-inline void check_view(DataView &v, const Arr &r, const std::vector<size_t> &first, const std::vector<size_t> &count) {
+// compare a DataView with the expected block (first/count may be solver terms; the view itself is concrete on every path)
+inline void check_view(DataView &v, const Arr &r, const std::vector<Sel> &sel) {
     NDSize ve = v.dataExtent();
     size_t rank = r.ext.size();
     nixsym_assert(ve.size() == rank, "view has the rank of the data");
     if (ve.size() != rank) return;
-    for (size_t d = 0; d < rank; d++) nixsym_assert(ve[d] == count[d], "view extent = number of selected elements per dimension");
-    for (size_t d = 0; d < rank; d++) if (ve[d] != count[d]) return;
+    bool shape = true;
+    for (size_t d = 0; d < rank; d++) shape = shape & (ve[d] == sel[d].count);
+    nixsym_assert(shape, "view extent = number of selected elements in every dimension");
     std::vector<double> got((size_t)ve.nelms());
+    if (got.empty()) return;
     v.getData(DataType::Double, got.data(), ve, NDSize(rank, 0));
-    size_t k = 0;
-    for (size_t i = 0; i < count[0]; i++) for (size_t j = 0; j < (rank == 2 ? count[1] : 1); j++) {
-        double want = (double)((first[0] + i) * 10 + (rank == 2 ? first[1] + j : 0));
-        nixsym_assert(got[k++] == want, "view returns exactly the selected elements");
-    }
+    bool content = true;
+    size_t idx[3] = {0, 0, 0}, k = 0;
+    for (idx[0] = 0; idx[0] < (size_t)ve[0]; idx[0]++)
+        for (idx[1] = 0; idx[1] < (rank > 1 ? (size_t)ve[1] : 1); idx[1]++)
+            for (idx[2] = 0; idx[2] < (rank > 2 ? (size_t)ve[2] : 1); idx[2]++) {
+                uint64_t want = 0;
+                for (size_t d = 0; d < 3; d++) want = want * 10 + (d < rank ? sel[d].first + idx[d] : 0);
+                content = content & ((uint64_t)got[k++] == want);
+            }
+    nixsym_assert(content, "view returns exactly the selected elements");
 }
+
+inline double sym_pos(const char *name) { double p = nixsym_f64(name); nixsym_assume(p == p && p > -1e15 && p < 1e15); return p; }
 
 }  // namespace vh
